@@ -308,12 +308,13 @@ func c31BuildCases() *c31Gen {
 			}
 		}
 	}
-	// E2f (thorough): pairs over the FULL alphabet x partial classes, Size declared
+	// E2f (thorough): a seed-selected half of all pairs over the FULL alphabet x
+	// partial classes (Size declared in 3 of 4)
 	if !quick {
 		for ai, a := range full {
 			for bi, b := range full {
 				for pi, p := range c31PartialClasses {
-					if g.take(1) {
+					if g.take(2) {
 						g.add("E2f-pair-full", 4096, p, (ai+bi+pi)%4 != 0, c31Leave(ai+bi+pi), []string{a, b})
 					}
 				}
@@ -362,7 +363,7 @@ func c31BuildCases() *c31Gen {
 	}
 	// R: seeded random longer scripts (3..8 requests), random positions,
 	// random partial lengths/corruption
-	nrand := kit.Scale(600, 5000)
+	nrand := kit.Scale(600, 3000)
 	heads := []string{"ok", "ok", "ok", "ignore", "ignore", "w206z", "w206s", "416", "500", "503", "redirect", "drop", "404"}
 	faults := []string{"", "", "cl", "cl", "short", "chunk", "eof", "flip", "flip", "reset", "extra"}
 	for k := 0; k < nrand; k++ {
@@ -745,11 +746,12 @@ func TestVerifC31(t *testing.T) {
 	c := kit.New("C31", "fault_enumeration")
 	defer c.Done(t)
 	c.Rule("case = (content size 0/1/4KiB/1MiB, pre-existing .partial spec, Size declared or 0, LeavePartialOnError nil/false/true, " +
-		"per-request server script); systematic: every single behaviour of a 74-element alphabet (4 heads ok/ignore-Range/206-from-0/206-shifted x 17 body " +
-		"faults + 416/500/404/402/redirect/drop) x 15 partial files x declared/unknown, pairs over a 20-element core alphabet x 15 partials x 2, triples over a " +
-		"9-element alphabet x 8 partial classes x 2 (quick: seed-selected 1/6 resp. 1/12 slices; thorough: all, plus all pairs of the full alphabet), sizes 0/1/1MiB, " +
-		"slow bodies; plus seeded random scripts of 3-8 requests with random cut/flip positions and partial lengths. A case is non-trivial when the server served " +
-		"at least one behaviour other than a plain correct reply or a non-empty .partial pre-existed; distinct = distinct (size, partial, declared, leave, script)")
+		"per-request server script; after the script the server behaves correctly). Systematic: every single behaviour of a 74-element alphabet " +
+		"(4 heads ok / ignore-Range / 206-from-0 / 206-shifted x 17 body faults, + 416/500/404/402/redirect/drop) x 15 partial files x declared/unknown (all, both tiers); " +
+		"pairs over a 20-element core alphabet x 15 partials x 2 and triples over a 9-element alphabet x 8 partial classes x 2 (quick: seed-keyed 1/12 and 1/30 slices; " +
+		"thorough: all, plus half of all pairs of the full alphabet x 8 partial classes); sizes 0, 1, 1 MiB; slow bodies; plus seeded random scripts of 3-8 requests with " +
+		"random cut/flip positions and random partial lengths. A case is non-trivial when the server served at least one behaviour other than a plain correct reply " +
+		"or a non-empty .partial pre-existed; distinct = distinct (size, partial, declared, leave, script)")
 	c.Assume("the server is a Go net/http server on loopback; HTTP/1.1 only (no TLS, no HTTP/2 framing faults)")
 	c.Assume("delta downloads, the download cache (CacheDownloads=0 as in store.New(nil,nil)) and rate limiting are not exercised; no pre-existing file at the target path")
 	c.Assume("retry strategy shortened to 5 attempts x 1 ms through MockDownloadRetryStrategy; speed-monitor window 60 ms / 1 B/s only in the slow-body phase")
